@@ -113,7 +113,13 @@ fn get<K: IntoVal<Env, Val>, V: TryFromVal<Env, Val>>(dur: u8, k: &K) -> Option<
         if !found && s.claimed && s.dur == dur && keq(&s.key, &key) {
             found = true;
             is_live = s.present && (s.dur != 1 || s.live_until >= seq);
-            words = s.val;
+            let mut j = 0;
+            while j < VW {
+                if j < V::__W {
+                    words[j] = s.val[j];
+                }
+                j += 1;
+            }
         }
         i += 1;
     }
@@ -146,6 +152,10 @@ fn get<K: IntoVal<Env, Val>, V: TryFromVal<Env, Val>>(dur: u8, k: &K) -> Option<
     None
 }
 fn keq(a: &[u64; KW], b: &[u64; KW]) -> bool {
+    #[cfg(feature = "getmux")]
+    if a[0] != b[0] {
+        return false;
+    }
     let mut r = true;
     let mut i = 0;
     while i < KW {
